@@ -915,6 +915,11 @@ where
         }
         data.open_files[file_idx].entry.attributes.set_archive(true);
         data.open_files[file_idx].entry.mtime = self.time_source.get_timestamp();
+        if bytes_to_write < buffer.len() {
+            // The rest of the buffer does not fit below the maximum file size:
+            // report that, rather than claiming a complete write.
+            return Err(Error::DiskFull);
+        }
         Ok(())
     }
 
